@@ -668,6 +668,48 @@ func (p *Prog) WithinOnly(fn *ssa.Function, pred func(*ssa.Function) bool, depth
 		}
 		return p.WithinOnly(par, pred, depth-1)
 	}
+	if fn.Synthetic != "" && BoundTarget(fn) != fn {
+		// the wrapper of a method value: like a closure, it must only be called where it is made
+		n, escapes := 0, false
+		var makers []*ssa.Function
+		for _, g := range p.pandoraFuncs() {
+			EachInstr(g, func(in ssa.Instruction) {
+				mc, ok := in.(*ssa.MakeClosure)
+				if !ok || mc.Fn != ssa.Value(fn) {
+					return
+				}
+				if g.Pos().IsValid() && !IsProdFile(p.File(g.Pos())) {
+					return
+				}
+				n++
+				makers = append(makers, g)
+				if mc.Referrers() == nil {
+					escapes = true
+					return
+				}
+				for _, r := range *mc.Referrers() {
+					switch x := r.(type) {
+					case *ssa.DebugRef:
+					case ssa.CallInstruction:
+						if x.Common().Value != ssa.Value(mc) {
+							escapes = true
+						}
+					default:
+						escapes = true
+					}
+				}
+			})
+		}
+		if escapes || n == 0 {
+			return false
+		}
+		for _, g := range makers {
+			if !p.WithinOnly(g, pred, depth-1) {
+				return false
+			}
+		}
+		return true
+	}
 	if p.addrTakenFn(fn) {
 		if os.Getenv("PV_DEBUG") != "" {
 			fmt.Fprintln(os.Stderr, "WithinOnly: address taken:", fn)
